@@ -340,7 +340,10 @@ func (s *muxerStream) handleMediaPlaylist(w http.ResponseWriter, r *http.Request
 						return nil
 					}
 
-					if s.hasContent() && s.hasPart(msnint, partint) {
+					// without _HLS_part, the request is for the complete segment
+					if s.hasContent() &&
+						((part == "" && msnint < s.nextSegmentID) ||
+							(part != "" && s.hasPart(msnint, partint))) {
 						break
 					}
 
